@@ -121,6 +121,36 @@ CLAIMED = {
              "after every step are validated by TLC.",
         note="two user SVs, two ECs (one bounded), two alarms; value classes below/min/inside/max/above; predefined SVs masked",
         design="5/C13"),
+    "C01": dict(
+        technique="executable TLA+ reference codec E5Item; TLC proves round-trip/prefix-freeness/minimal-header on a boundary "
+                  "universe (E5Universe) whose members are replayed as vectors on secs.variables; random values recorded from the "
+                  "real encoder are judged by TLC (E5Judge)",
+        text="SEMI E5 item encoding is an executable TLA+ definition (two's complement over byte limbs, JIS-8 table, length-byte "
+             "rule). TLC proves the codec theorems on ~5k boundary items (all integer widths at min/max/+-1, critical and all "
+             "single bytes, finite float patterns incl. FLT_MAX/DBL_MAX/subnormals, nested lists, element counts around 255/256 and "
+             "65535/65536 for every format) and each is a byte-exact vector for the real types (typed and Dynamic decode with "
+             "trailing bytes); seeded random items are encoded by the real code and judged by TLC. Reference-oracle use of TLC "
+             "(no interleavings): bounded, weakest fit of the family.",
+        note="the IEEE-754 value<->bit-pattern correspondence is CPython's struct; the 64-bit value space is sampled, boundary classes are exhaustive",
+        design="5/C01"),
+    "C02": dict(
+        technique="TLA+ reference decoder E5Item: TLC proves that every non-minimal-length-byte variant of the universe denotes the "
+                  "same item; variants replayed on the real decoders (typed, Dynamic, restricted Dynamic, nested); random valid "
+                  "encodings confirmed by TLC and decoded by the real code",
+        text="For every universe item each admissible number of length bytes (outer header and as list child) is generated and "
+             "proved by TLC to decode to the item; the real decoders must accept each and re-encode canonically; a format code the "
+             "receiving definition does not allow must be rejected; random items encoded with random admissible header sizes at "
+             "every level extend this beyond the universe.",
+        note="the IEEE-754 value<->bit-pattern correspondence is CPython's struct; the 64-bit value space is sampled, boundary classes are exhaustive; JIS-8 is decoded typed only (Dynamic has no JIS-8)",
+        design="5/C02"),
+    "C14": dict(
+        technique="the same TLC-proved universe (E5Universe) + narrowest-integer rule E5Item!Narrowest replayed on the Item API; "
+                  "random Item encodings judged by TLC (E5Judge)",
+        text="Item API: encode, .value, Item.decode/re-encode for canonical and non-minimal encodings, constructor forms, "
+             "length-byte boundaries and Item.from_value's narrowest-type choice on boundary integers are compared with the "
+             "TLA+ reference; both APIs equal the same reference bytes, hence each other.",
+        note="the IEEE-754 value<->bit-pattern correspondence is CPython's struct; the 64-bit value space is sampled, boundary classes are exhaustive",
+        design="5/C14"),
 }
 
 NOT_YET = "check not built yet in this round (specification and harness in progress; see DESIGN.md section 9)"
